@@ -182,21 +182,27 @@ def parse_file(txt):
         if kind.startswith(": list R") and wp:
             continue
         args = args.split() if args else []
-        lets, final = [], None
+        lets, final, bound = [], None, None
         for line in body.split("\n"):
             line = line.strip()
             if line.startswith("let "):
                 mm = re.match(r"let (\w+) := (.*) in$", line)
                 lets.append((mm.group(1), mm.group(2)))
             elif line.startswith("forall "):
-                mm = re.match(r"forall (\w+), Eqn (\w+) (.*) ->$", line)
-                if mm.group(1) != mm.group(2):
-                    raise ValueError("wpe line binds %s but defines %s" % (mm.group(1), mm.group(2)))
-                lets.append((mm.group(1), mm.group(3)))
+                mm = re.match(r"forall ([\w ]+) : R,$", line)
+                bound = mm.group(1).split()
+            elif line.startswith("Eqn "):
+                mm = re.match(r"Eqn (\w+) (.*) ->$", line)
+                if not bound or bound[0] != mm.group(1):
+                    raise ValueError("wpe equation for %s does not follow the binder order" % mm.group(1))
+                bound.pop(0)
+                lets.append((mm.group(1), mm.group(2)))
             elif line:
                 final = line
         if final is None:
             continue
+        if bound:
+            raise ValueError("wpe binders without equation: %s" % bound[:3])
         if wp:
             if not final.startswith("P ["):
                 continue
